@@ -116,6 +116,72 @@ func mk(t reflect.Type, vs ...any) []reflect.Value {
 	return out
 }
 
+// violatorsFirst puts, right behind the first candidate, one value per keyword of the schema that
+// breaks exactly that keyword (maximum + 1, minimum - 1, a non-multiple, a string one longer / shorter
+// than allowed, a non-member of the enum): nested positions only get the first few candidates of a
+// member, and a validator that forgets a nested position shows with nothing else.
+func violatorsFirst(t reflect.Type, s M, cands []reflect.Value) []reflect.Value {
+	if len(cands) == 0 {
+		return cands
+	}
+	num := func(k string) (float64, bool) {
+		switch x := s[k].(type) {
+		case float64:
+			return x, true
+		case int:
+			return float64(x), true
+		case json.Number:
+			f, err := x.Float64()
+			return f, err == nil
+		}
+		return 0, false
+	}
+	var extra []any
+	switch t.Kind() {
+	case reflect.String:
+		if n, ok := num("maxLength"); ok {
+			extra = append(extra, strings.Repeat("a", int(n)+1))
+		}
+		if n, ok := num("minLength"); ok && n > 0 {
+			extra = append(extra, strings.Repeat("a", int(n)-1))
+		}
+		if _, ok := s["pattern"]; ok {
+			extra = append(extra, "\x01 no match \x02")
+		}
+		if _, ok := s["enum"]; ok {
+			extra = append(extra, "not-a-member")
+		}
+	case reflect.Int, reflect.Int8, reflect.Int16, reflect.Int32, reflect.Int64, reflect.Uint, reflect.Uint8, reflect.Uint16, reflect.Uint32, reflect.Uint64, reflect.Float32, reflect.Float64:
+		if n, ok := num("maximum"); ok {
+			extra = append(extra, n+1)
+		}
+		if n, ok := num("minimum"); ok {
+			extra = append(extra, n-1)
+		}
+		if n, ok := num("multipleOf"); ok && n != 1 {
+			extra = append(extra, n+n/2, n+1)
+		}
+	}
+	var vs []reflect.Value
+	for _, e := range extra {
+		rv := reflect.ValueOf(e)
+		if !rv.Type().ConvertibleTo(t) {
+			continue
+		}
+		cv := rv.Convert(t)
+		// conversions that do not keep the value (a negative number to unsigned, a fraction to integer) are skipped
+		if f, ok := e.(float64); ok {
+			switch {
+			case cv.CanInt() && float64(cv.Int()) != f, cv.CanUint() && (f < 0 || float64(cv.Uint()) != f):
+				continue
+			}
+		}
+		vs = append(vs, cv)
+	}
+	out := append([]reflect.Value{cands[0]}, vs...)
+	return append(out, cands[1:]...)
+}
+
 // build returns candidate values of Go type t for schema s (simplest first).
 func build(t reflect.Type, s M, depth int) []reflect.Value {
 	s = resolve(s)
@@ -312,29 +378,29 @@ func build(t reflect.Type, s M, depth int) []reflect.Value {
 	}
 	switch t.Kind() {
 	case reflect.String:
-		return mk(t, "a", "", "ab", "abc", "b", "ba", "é\"\\\n\x00 😀", " </script>", strings.Repeat("x", 300))
+		return violatorsFirst(t, s, mk(t, "a", "", "ab", "abc", "b", "ba", "é\"\\\n\x00 😀", " </script>", strings.Repeat("x", 300)))
 	case reflect.Bool:
 		return mk(t, false, true)
 	case reflect.Int, reflect.Int64:
-		return mk(t, 0, 1, -1, 2, 4, 5, 6, 10, int64(math.MaxInt64), int64(math.MinInt64), int64(1)<<53+1)
+		return violatorsFirst(t, s, mk(t, 0, 1, -1, 2, 4, 5, 6, 10, int64(math.MaxInt64), int64(math.MinInt64), int64(1)<<53+1))
 	case reflect.Int32:
-		return mk(t, 0, 1, -1, 2, 5, 6, math.MaxInt32, math.MinInt32)
+		return violatorsFirst(t, s, mk(t, 0, 1, -1, 2, 5, 6, math.MaxInt32, math.MinInt32))
 	case reflect.Int16:
-		return mk(t, 0, -1, 5, math.MaxInt16, math.MinInt16)
+		return violatorsFirst(t, s, mk(t, 0, -1, 5, math.MaxInt16, math.MinInt16))
 	case reflect.Int8:
-		return mk(t, 0, -1, 5, math.MaxInt8, math.MinInt8)
+		return violatorsFirst(t, s, mk(t, 0, -1, 5, math.MaxInt8, math.MinInt8))
 	case reflect.Uint, reflect.Uint64:
-		return mk(t, uint64(0), uint64(1), uint64(5), uint64(math.MaxInt64), uint64(math.MaxInt64)+1, uint64(math.MaxUint64), uint64(1)<<53+1)
+		return violatorsFirst(t, s, mk(t, uint64(0), uint64(1), uint64(5), uint64(math.MaxInt64), uint64(math.MaxInt64)+1, uint64(math.MaxUint64), uint64(1)<<53+1))
 	case reflect.Uint32:
-		return mk(t, uint32(0), uint32(5), uint32(math.MaxInt32), uint32(math.MaxInt32)+1, uint32(math.MaxUint32))
+		return violatorsFirst(t, s, mk(t, uint32(0), uint32(5), uint32(math.MaxInt32), uint32(math.MaxInt32)+1, uint32(math.MaxUint32)))
 	case reflect.Uint16:
-		return mk(t, uint16(0), uint16(5), uint16(math.MaxInt16), uint16(math.MaxInt16)+1, uint16(math.MaxUint16))
+		return violatorsFirst(t, s, mk(t, uint16(0), uint16(5), uint16(math.MaxInt16), uint16(math.MaxInt16)+1, uint16(math.MaxUint16)))
 	case reflect.Uint8:
-		return mk(t, uint8(0), uint8(5), uint8(127), uint8(128), uint8(255))
+		return violatorsFirst(t, s, mk(t, uint8(0), uint8(5), uint8(127), uint8(128), uint8(255)))
 	case reflect.Float64:
-		return mk(t, 0.0, 0.5, 1.0, -1.0, 2.0, 2.5, -0.5, 1.5, 0.25, 1e21, 1e-7, math.MaxFloat64, 5e-324, 0.1, math.Copysign(0, -1))
+		return violatorsFirst(t, s, mk(t, 0.0, 0.5, 1.0, -1.0, 2.0, 2.5, -0.5, 1.5, 0.25, 1e21, 1e-7, math.MaxFloat64, 5e-324, 0.1, math.Copysign(0, -1)))
 	case reflect.Float32:
-		return mk(t, float32(0), float32(0.5), float32(-1), float32(0.1), float32(math.MaxFloat32), float32(1e-45))
+		return violatorsFirst(t, s, mk(t, float32(0), float32(0.5), float32(-1), float32(0.1), float32(math.MaxFloat32), float32(1e-45)))
 	case reflect.Slice:
 		if t.Elem().Kind() == reflect.Uint8 {
 			return mk(t, []byte("ab\x00\xff"), []byte{}, []byte(nil))
@@ -410,7 +476,9 @@ func build(t reflect.Type, s M, depth int) []reflect.Value {
 	case reflect.Pointer:
 		out := []reflect.Value{reflect.Zero(t)}
 		if depth < 4 {
-			for _, e := range build(t.Elem(), s, depth+1) {
+			// a pointer is how a recursive member is written, not a level of the document: the
+			// members of the pointee count the level
+			for _, e := range build(t.Elem(), s, depth) {
 				p := reflect.New(t.Elem())
 				p.Elem().Set(e)
 				out = append(out, p)
@@ -543,14 +611,16 @@ func buildStruct(t reflect.Type, s M, depth int) []reflect.Value {
 	if depth > 0 {
 		limit = 6 // nested structs contribute a few representative values
 	}
-	for _, f := range fields {
-		for ci, c := range f.cands {
-			if ci == 0 || ci > limit {
+	// candidate by candidate across the members (not member by member): the first few values of the
+	// list, which is all an enclosing position takes, then vary every member once
+	for ci := 1; ci <= limit; ci++ {
+		for _, f := range fields {
+			if ci >= len(f.cands) {
 				continue
 			}
 			x := reflect.New(t).Elem()
 			x.Set(base)
-			x.Field(f.idx).Set(c)
+			x.Field(f.idx).Set(f.cands[ci])
 			out = append(out, x)
 		}
 	}
